@@ -13,7 +13,7 @@ All theorems are about the model Ymq/Model/Gf2Small.lean (tied to the code by th
 -/
 import Ymq.Lemmas.Gf2SmallCallsite
 import Ymq.Lemmas.Gf2SmallInverse
-import Ymq.Lemmas.Gf2SmallLoop
+import Ymq.Lemmas.Gf2SmallLoopMain
 import Ymq.Model.Gf2Genblock
 
 namespace Ymq.C14Small
@@ -397,6 +397,53 @@ theorem lanczos_step_checked_orthogonal (b : SparseOpt) (ay : List Nat) (st st' 
     (∃ rk, rk ≠ 0 ∧ rank 64 true (st'.invgs.getLast?.getD []) = some (rk, mk)) ∧
     st'.masks.getLast? = some (M64 ^^^ mk) :=
   lanczosStep_checked h
+
+open Ymq.Gf2Lanczos Ymq.Gf2 in
+/-- The INDUCTIVE STEP of block Lanczos on the CHECKED model (Montgomery 1995), both the no-panic
+statement and the classical invariant. `LInv k cols Y0 st hist Ss` (`Q x y = xᵗ·A·y`, `A = BᵗB`, `hist` =
+every block `W_j` ever selected, purged or not, `Ss` their masks, `Y0` the block of `genblock`):
+the state is well formed; every kept `ws[j]` is `hist[j]`, is masked by `S_j`, and `invgs[j]` is supported
+on `S_j × S_j` with `invgs[j]·(W_jᵗ A W_j) = 1` on `S_j` (`KeptOK`: `W_jᵗ A W_j` invertible on its mask);
+`W_jᵗ A W_l = 0` for all `j ≠ l` of the history (`orth`); `Y` is A-orthogonal to every selected block
+(`yAll`), and every block A-orthogonal to the whole history is A-orthogonal to `Y + Y0` (`yOrth`).
+From such a state, and given the three-term property of this iteration (`h3`: the blocks that are no
+longer projected — purged earlier, or consumed now, `mask == 0` — are A-orthogonal to the direction
+`A·W_last ^ V_last`), one iteration of the checked profile reaches NO panic site: every
+`debug_assert!` of the loop holds — `ws[j]·av == 0` at a purge, `(A·W_j)ᵗ·next == 0` after each
+projection, `ginv.rank() == (rk, mask)`, `W·A·Y == 0` — and the invariant holds again for the new state
+with the new block appended to the history.
+MISSING for `lanczos_loop_no_panic` (named): (1) the three-term property `h3` as a consequence of the
+invariant (Montgomery's argument: `A·W_j ∈ span(V_{j+1}, V_j, W_l (l ≤ j))` and the unselected vectors of
+`V_j` are selected later, which is what `mask == 0` expresses); it needs `V_j` in the ghost history;
+(2) the base case `LInv` for the state of `lanczosInit` (`hist = [A·Y0]`, `Ss = [!0]`, from `inverse_spec`).
+The K stream runs the checked model on every iteration of real runs (no panic), and the oracle checks
+`W_iᵗ A W_j = 0` pairwise on the recorded blocks. -/
+theorem lanczos_step_no_panic_checked (k : Nat) (cols : List (List Nat)) (Y0 ay : List Nat) (st : LState)
+    (hist : List (List Nat)) (Ss : List Nat) (hM : MatOK k cols)
+    (hay : Ymq.Gf2Genblock.mulAabOpt (qsOptimize k cols) Y0 = some ay) (hayOK : BlockOK cols.length ay)
+    (hInv : LInv k cols Y0 st hist Ss)
+    (h3 : ∀ next0, Direction k cols st next0 → ∀ j, j < st.ws.length →
+      ¬ Projected st.ws st.masks st.ws.length j → Q k cols (hist.getD j []) next0 = 0) :
+    (∃ st', lanczosStep true (qsOptimize k cols) ay st = .finished st') ∨
+    (∃ st' mk w, lanczosStep true (qsOptimize k cols) ay st = .continue st' mk ∧
+      LInv k cols Y0 st' (hist ++ [w]) (Ss ++ [mk])) :=
+  lanczosStep_checked_ok hM hay hayOK hInv h3
+
+open Ymq.Gf2Lanczos Ymq.Gf2 in
+/-- the classical invariant read off `LInv`: pairwise A-orthogonality of the selected blocks, the Gram
+matrix of a kept block inverted on its mask by `invgs[j]` (two-sided: `right_inverse_on_support`), `Y`
+A-orthogonal to every selected block -/
+theorem lanczos_invariant (k : Nat) (cols : List (List Nat)) (Y0 : List Nat) (st : LState)
+    (hist : List (List Nat)) (Ss : List Nat) (hInv : LInv k cols Y0 st hist Ss) :
+    (∀ j l, j < st.ws.length → l < st.ws.length → j ≠ l → Q k cols (hist.getD j []) (hist.getD l []) = 0) ∧
+    (∀ (j : Nat) (w : List Nat), st.ws[j]? = some w → w.isEmpty = false → w = hist.getD j [] ∧
+      ∃ ig, st.invgs[j]? = some ig ∧ toMat 64 ig * Q k cols w w = projS (Ss.getD j 0) ∧
+        Q k cols w w * toMat 64 ig = projS (Ss.getD j 0)) ∧
+    (∀ j, j < st.ws.length → Q k cols (hist.getD j []) st.y = 0) := by
+  refine ⟨hInv.orth, ?_, hInv.yAll⟩
+  intro j w hw hne
+  obtain ⟨e, ig, hig, hK⟩ := hInv.kept j w hw hne
+  exact ⟨e, ig, hig, hK.inv, hK.right_inv⟩
 
 /-! ### non-vacuity and counter-witnesses (small sizes: the theorems hold for every `n`; the same
 matrices padded with null rows to 64x64 are corpus requests of the K/O streams) -/
